@@ -189,7 +189,7 @@ func c09ExecOpts(scripts []string, seed string, choiceSeed uint64, hook func(ste
 		})
 	}
 	if eo.restore != nil {
-		if err := rr.DR.RestoreAt(eo.restore); err != nil {
+		if err := rr.RestoreAt(eo.restore); err != nil {
 			return "restore-failed:" + err.Error(), err.Error()
 		}
 	}
